@@ -94,6 +94,7 @@ def run(ctx):
         "traces_validated_against_impl": evaluated,
         "op_effect_lists_compared_with_model": summ.get("coq_op_effect_lists_compared", 0),
         "real_startups_compared_with_model": summ.get("coq_start_samples", 0),
+        "post_recovery_write_checks": summ.get("post_recovery_write_checks", 0),
         "histories_with_model_oracles_evaluated": summ.get("coq_model_oracle_histories", 0),
         "model_disagreements": len(bad),
         "oracle_failures": len(fails),
